@@ -29,7 +29,7 @@ Local Open Scope Z_scope.
 (* ------------------------------------------------------------------------------------ *)
 (* strings                                                                               *)
 (* ------------------------------------------------------------------------------------ *)
-Definition str := list byte.
+Notation str := (list byte) (only parsing).
 
 Fixpoint list_eqb (a b : str) : bool :=
   match a, b with
@@ -59,8 +59,28 @@ Fixpoint cstring (b : buf) : res str :=
   | None :: _ => Fault Uninit_read
   | Some c :: t => if c =? 0 then Ok [] else (r <- cstring t ;; Ok (c :: r))
   end.
-(* strcpy(b, s) / the store half of fgets: the bytes and a terminator *)
-Definition put_str (b : buf) (s : str) : res buf := put_cells b 0 (bytes s ++ [Some 0]).
+(* strcpy(b, s) / the store half of fgets: the bytes and a terminator, written cell by cell from cell 0
+   (a write beyond the buffer is a fault) *)
+Fixpoint put_at (b : buf) (cs : list cell) : res buf :=
+  match cs, b with
+  | [], _ => Ok b
+  | _ :: _, [] => Fault OOB_write
+  | c :: cs', _ :: b' => r <- put_at b' cs' ;; Ok (c :: r)
+  end.
+Definition put_str (b : buf) (s : str) : res buf := put_at b (bytes s ++ [Some 0]).
+
+(* spiftool_chomp(buff): the C13 model, handed exactly the string and its terminator - the cells it may
+   touch (so a read or write beyond the terminator would be a fault here); the rest of the buffer is kept *)
+Definition chomp_line (b : buf) : res buf :=
+  l <- strlen b ;;
+  r <- chomp (firstn (S l) b) ;;
+  Ok (r ++ skipn (S l) b).
+(* spiftool_get_word / spiftool_get_pword on a string in the line buffer: the C12 models, handed the
+   string and its terminator only (they read nothing else: C12's frame theorem) *)
+Definition get_word_line (idx : Z) (b : buf) : res (option str) :=
+  l <- strlen b ;; get_word idx (firstn (S l) b).
+Definition get_pword_line (idx : Z) (b : buf) : res (option Z) :=
+  l <- strlen b ;; get_pword idx (firstn (S l) b).
 
 (* ------------------------------------------------------------------------------------ *)
 (* streams                                                                               *)
@@ -68,11 +88,13 @@ Definition put_str (b : buf) (s : str) : res buf := put_cells b 0 (bytes s ++ [S
 Record stream := { sdata : list byte; seof : bool }.
 
 (* at most n bytes, stopping after the first newline *)
-Fixpoint take_line (n : nat) (d : list byte) : list byte * list byte :=
-  match n, d with
-  | O, _ => ([], d)
-  | _, [] => ([], [])
-  | S n', c :: t => if c =? 10 then ([c], t) else let '(a, r) := take_line n' t in (c :: a, r)
+Fixpoint take_line (n : Z) (d : list byte) : list byte * list byte :=
+  match d with
+  | [] => ([], [])
+  | c :: t =>
+    if n <=? 0 then ([], d)
+    else if c =? 10 then ([c], t)
+    else let '(a, r) := take_line (n - 1) t in (c :: a, r)
   end.
 Definition ends_nl (chunk : list byte) : bool :=
   match rev chunk with c :: _ => c =? 10 | [] => false end.
@@ -82,7 +104,7 @@ Definition fgets (size : Z) (st : stream) : option (list byte) * stream :=
   match sdata st with
   | [] => (None, {| sdata := []; seof := true |})
   | _ =>
-    let '(chunk, rest) := take_line (Z.to_nat (size - 1)) (sdata st) in
+    let '(chunk, rest) := take_line (size - 1) (sdata st) in
     let hit := match rest with [] => negb (ends_nl chunk) && (Z.of_nat (length chunk) <? size - 1) | _ => false end in
     (Some chunk, {| sdata := rest; seof := seof st || hit |})
   end.
@@ -388,20 +410,20 @@ Section Conf.
     else
       top <- cpeek c ;;                                               (* id = ctx_peek_id() *)
       let id := cs_id top in
-      b1 <- chomp buff ;;
+      b1 <- chomp_line buff ;;
       c1 <- rdn b1 0 ;;
       if (c1 =? 35) || (c1 =? 0) then Ok (c, w, b1, [])
       else
       f <- fpeek c ;;
       if c1 =? 37 then                                           (* '%' *)
-        pw <- get_pword 1 (skipn 1 b1) ;;
+        pw <- get_pword_line 1 (skipn 1 b1) ;;
         match pw with
         | None => Ok (c, w, b1, [])                                   (* nothing follows the '%' *)
         | Some off =>
           word <- cstring (skipn (1 + Z.to_nat off) b1) ;;
           if beg_ci s_include word then
             '(c2, b2, ev) <- do_expand c b1 ;;
-            path <- get_word 2 (skipn 1 b2) ;;
+            path <- get_word_line 2 (skipn 1 b2) ;;
             fp <- open_file path ;;
             match fp with
             | None => Ok (c2, w, b2, ev)                              (* path allocated and freed *)
@@ -414,7 +436,7 @@ Section Conf.
           else if beg_ci s_preproc word then
             if f_preproc f then Ok (c, w, b1, [])
             else
-              pw2 <- get_pword 2 b1 ;;
+              pw2 <- get_pword_line 2 b1 ;;
               cmdw <- (match pw2 with
                        | Some o => cstring (skipn (Z.to_nat o) b1)
                        | None => Ok [40; 110; 117; 108; 108; 41]      (* "(null)" *)
@@ -452,7 +474,7 @@ Section Conf.
           else
             s <- cstring b1 ;;
             if beg_ci s_begin s then
-              name <- get_word 2 b1 ;;
+              name <- get_word_line 2 b1 ;;
               match name with
               | None => Fault Null_deref                              (* strcasecmp(NULL, ...) *)
               | Some nm => '(c2, w', ev) <- ctx_begin c w nm ;; Ok (c2, w', b1, ev)
@@ -480,13 +502,17 @@ Section Conf.
     {| f_fp := Some st; f_path := f_path f; f_outfile := f_outfile f; f_line := line;
        f_skip := f_skip f; f_preproc := f_preproc f; f_owned := f_owned f |}.
 
-  (* one fgets of the reading loop per unit of fuel *)
-  Fixpoint parse_loop (fuel : nat) (c : conf) (w : W) (buff : buf) (acc : list event)
+  (* one fgets of the reading loop per unit of fuel.  The two nested loops of the code
+       for (; fstate_idx > 0;) { for (; fgets(buff, CONFIG_BUFF, file_peek_fp());) { ... } fclose; file_pop(); }
+     are one function with a flag: `inner` = the next step is the inner loop's fgets, which happens without
+     a look at fstate_idx (so after the 8-bit index has wrapped to 0 on the 256th nested %include the
+     reading goes on with fstate[0]); otherwise the outer condition is tested first. *)
+  Fixpoint parse_loop (fuel : nat) (inner : bool) (c : conf) (w : W) (buff : buf) (acc : list event)
     : res (conf * W * list event) :=
     match fuel with
     | O => Fault Out_of_fuel
     | S fuel' =>
-      if t_idx (ftb c) =? 0 then Ok (c, w, acc)
+      if negb inner && (t_idx (ftb c) =? 0) then Ok (c, w, acc)
       else
         f <- fpeek c ;;
         match f_fp f with
@@ -497,7 +523,7 @@ Section Conf.
             (* fclose; remove + FREE(outfile) for a preprocessed file; FREE(path) if owned; file_pop *)
             c1 <- fpoke c (set_fp f st' (f_line f)) ;;
             let d := (if f_preproc f then blk (f_outfile f) else 0) + (if f_owned f then blk (f_path f) else 0) in
-            parse_loop fuel' (file_pop (add_open (add_live c1 (- d)) (-1))) w buff acc
+            parse_loop fuel' false (file_pop (add_open (add_live c1 (- d)) (-1))) w buff acc
           | (Some chunk, st') =>
             b1 <- put_str buff chunk ;;
             c1 <- fpoke c (set_fp f st' ((f_line f + 1) mod 2 ^ 32)) ;;   (* file_inc_line() *)
@@ -505,10 +531,10 @@ Section Conf.
             if negb (has_byte 10 s) && negb (seof st') then
               '(st2, b2) <- skip_long (S (length (sdata st'))) st' b1 ;;
               c2 <- fpoke c1 (set_fp f st2 ((f_line f + 1) mod 2 ^ 32)) ;;
-              parse_loop fuel' c2 w b2 acc
+              parse_loop fuel' true c2 w b2 acc
             else
               '(c2, w', b2, ev) <- parse_line c1 w b1 ;;
-              parse_loop fuel' c2 w' b2 (rev_append ev acc)
+              parse_loop fuel' true c2 w' b2 (rev_append ev acc)
           end
         end
     end.
@@ -523,7 +549,7 @@ Section Conf.
       c1 <- register_fstate (add_open c 1)
               {| f_fp := Some st; f_path := Some name; f_outfile := None; f_line := 1;
                  f_skip := false; f_preproc := false; f_owned := false |} ;;
-      '(c2, w', acc) <- parse_loop fuel c1 w (repeat None (Z.to_nat config_buff)) [] ;;
+      '(c2, w', acc) <- parse_loop fuel false c1 w (repeat None (Z.to_nat config_buff)) [] ;;
       Ok (c2, w', rev acc, true)
     end.
 
